@@ -351,6 +351,30 @@ def sweep(tier: str) -> Sweep:
     sweep_make_const(sw, r, tier)
     sweep_mappings(sw, r, tier)
     sweep_groups(sw, r, tier)
+    # texts with blanks at their edges are texts like any other: frozen as written, accepted as written, nothing else
+    for maker in ("make_const", "dict2const"):
+        m = {"%s": " to ", "%n": "dev ", "%x": "  ", "%-d": " a b", "%p": "plain"}
+        try:
+            C = make_const(name="EdgeConst", formatter=dict(m)) if maker == "make_const" else dict2const(dict(m), "EdgeConst")
+        except Exception as e:  # noqa: BLE001
+            sw.check(False, "a constant class cannot be made from a mapping", {"clause": "map-edge", "mapping": m, "maker": maker}, None, f"{type(e).__name__}: {e}")
+            continue
+        for d, text in m.items():
+            case = {"clause": "map-edge", "mapping": m, "maker": maker, "directive": d, "text": text}
+            sw.note(["map-edge", maker, d], "mapping-edge")
+            try:
+                got = C.parse(text, d).format(d)
+                sw.check(got == text, "a constant class does not render the text it was made from", case, text, got)
+            except Exception as e:  # noqa: BLE001
+                sw.check(False, "a constant class rejects its own text", case, text, f"err:{type(e).__name__}")
+            for other in {text.strip(), text + " ", " " + text} - {text}:
+                try:
+                    C.parse(other, d)
+                    sw.check(False, "a constant class accepts a text that is not its frozen text", {**case, "other": other}, "rejected", "accepted")
+                except FormatterError:
+                    pass
+                except Exception as e:  # noqa: BLE001
+                    sw.check(False, "a foreign exception", {**case, "other": other}, "FormatterError", type(e).__name__)
     return sw
 
 
